@@ -553,6 +553,18 @@ def extra_c03_parser(prop, tier, seed):
     return res
 
 
+def kani_c09(prop, tier, seed):
+    control_names()   # kani/token.rs includes the generated list for the C03 harnesses
+    return kani.part([
+        {'name': 'token::verif_kani::prelude_names_are_distinct_reserved_tokens', 'kind': 'complete',
+         'label': 'lookup_ident:prelude-names-recognised-and-distinct', 'file': 'src/token.rs', 'functions': ['lookup_ident'],
+         'clause': 'forall n in RFC 8610 Appendix D (40 names): lookup_ident(n) is a reserved token, not IDENT; distinct n give distinct tokens'},
+        {'name': 'token::verif_kani::only_prelude_names_are_reserved', 'kind': 'bounded', 'bound': 'text of <= 13 ASCII bytes (longest prelude name is 12)',
+         'label': 'lookup_ident:only-prelude-names-reserved', 'file': 'src/token.rs', 'functions': ['lookup_ident'], 'tiers': ('thorough',),
+         'clause': 'forall s, |s| <= 13: lookup_ident(s) is not IDENT ==> s in Appendix D'},
+    ], prop)(prop, tier, seed)
+
+
 def kani_c03(prop, tier, seed):
     control_names()
     return kani.part([
@@ -739,10 +751,10 @@ PROPS = {
     },
     'C09': {
         'vx': ['U5', 'U7'],
-        'extra': [extra_u5_bounded('c09'), extra_c09_ops],
+        'extra': [extra_u5_bounded('c09'), extra_c09_ops, kani_c09],
         'witness': witness_u5('c09'),
-        'technique': 'Verus postconditions on mechanically extracted fragments (R7) of the real array matchers over the real cddl::ast::Occur + identity lemma',
-        'level_text': 'Occurrence identities only: the statement that turns an occurrence indicator into (min, max) iteration bounds inside seq_match_entry - in the JSON and in the CBOR validator - is proved equal to one spec function occ_bounds over the REAL cddl::ast::Occur type, and a lemma shows ? = 0*1, * = 0* (= *), + = 1*, *m = 0*m on that spec; a token-level frame obligation shows the occurrence value is not read again after that statement, so the rest of the matcher depends on it only through (min, max); the greedy loop that consumes (min, max) is itself under contract in both validators (unit U7, one iteration abstracted by a stub). Operator identities (/, .and, .within, .eq/.ne, ranges) and prelude-name identities live inside the visitors and cannot be decided deductively; bounded differential stand-ins run them on the real validators (labelled bounded) and found genuine defects: a panic (F23, fixed) and 35 identity violations recorded as known finding F20 (`int .and 5` rejects 5; `.ne` rejects members outside u64; CBOR `nint` accepts non-negative integers; `unsigned` accepts negatives).',
+        'technique': 'Verus postconditions on mechanically extracted fragments (R7) of the real array matchers over the real cddl::ast::Occur + identity lemma; Kani harness over the Appendix D name list on the real lookup_ident',
+        'level_text': 'Occurrence identities, plus the first link of the prelude clause (Kani, complete over the finite list: each of the 40 Appendix D names is recognised by the real lookup_ident as its own reserved token; that nothing else is reserved is shown for texts of <= 13 bytes, bounded, thorough tier). Occurrence identities: the statement that turns an occurrence indicator into (min, max) iteration bounds inside seq_match_entry - in the JSON and in the CBOR validator - is proved equal to one spec function occ_bounds over the REAL cddl::ast::Occur type, and a lemma shows ? = 0*1, * = 0* (= *), + = 1*, *m = 0*m on that spec; a token-level frame obligation shows the occurrence value is not read again after that statement, so the rest of the matcher depends on it only through (min, max); the greedy loop that consumes (min, max) is itself under contract in both validators (unit U7, one iteration abstracted by a stub). Operator identities (/, .and, .within, .eq/.ne, ranges) and prelude-name identities live inside the visitors and cannot be decided deductively; bounded differential stand-ins run them on the real validators (labelled bounded) and found genuine defects: a panic (F23, fixed) and 35 identity violations recorded as known finding F20 (`int .and 5` rejects 5; `.ne` rejects members outside u64; CBOR `nint` accepts non-negative integers; `unsigned` accepts negatives).',
         'level_note': 'Trusted: Verus+Z3; rustc agreement between the fragment and the enclosing function (R7 wraps the statement in a generated fn, nothing inside changes). Unverified: the greedy loop and seq_match_entry_once, map-group occurrence handling (validate_repeating_member_count etc.), every other identity named in C09.',
         'design_ref': 'DESIGN.md 4 U5',
         'scope': 'occurrence -> (min,max) in seq_match_entry (json.rs, cbor.rs)',
